@@ -311,6 +311,42 @@ pub fn run_c17(args: &Args) -> Report {
             }
         }
     }
+    // a source that is reached only as the dependency of an includer in a sub-directory (the includer is the only input):
+    // its commands still see TXTPP_FILE relative to the base directory; and a command whose output is far larger than
+    // a pipe read (40 KB of two-byte characters) arrives unchanged
+    if args.shard == 0 {
+        let cmd = "printf %s \"$TXTPP_FILE\"";
+        let payload = format!("x{}\n", "é".repeat(20000));
+        let files = vec![
+            ("gen/a.txt.txtpp".to_string(), format!("TXTPP#include sub/dep.txt\n// TXTPP#run {cmd}\n~\n").into_bytes()),
+            ("gen/sub/dep.txt.txtpp".to_string(), format!("// TXTPP#run {cmd}\n~\n").into_bytes()),
+            ("gen/big.txt.txtpp".to_string(), b"before\n# TXTPP#run cat payload.txt\nafter\n".to_vec()),
+            ("gen/payload.txt".to_string(), payload.clone().into_bytes()),
+        ];
+        let p = Project {
+            files,
+            dirs: vec!["gen".into(), "gen/sub".into()],
+            cmds: vec![(cmd.to_string(), vec![Act { kind: "file", arg: String::new() }]), ("cat payload.txt".to_string(), vec![Act { kind: "cat", arg: "payload.txt".into() }])],
+            sources: vec!["gen/a.txt.txtpp".into(), "gen/sub/dep.txt.txtpp".into(), "gen/big.txt.txtpp".into()],
+            sig: vec![],
+            expect_error: false,
+        };
+        for inputs in [vec!["gen/a.txt".to_string(), "gen/big.txt".to_string()], vec!["gen/big.txt.txtpp".to_string(), "gen/a.txt.txtpp".to_string()]] {
+            materialize(&p, &runner.dir);
+            let mut cfg = RunCfg::build_all();
+            cfg.threads = 2;
+            cfg.recursive = false;
+            cfg.inputs = inputs.clone();
+            let idx = runner.run_here(&cfg, &p.cmds, vec!["dependency-in-subdirectory+large-output".to_string()], "dependency reached from an includer in a sub-directory; 40 KB command output");
+            let c = &runner.cases[idx];
+            let get = |n: &str| c.imp.after.files.get(n).map(|b| String::from_utf8_lossy(b).to_string()).unwrap_or_default();
+            let (dep, a, big) = (get("gen/sub/dep.txt"), get("gen/a.txt"), get("gen/big.txt"));
+            if c.imp.verdict != "ok" || !dep.starts_with("gen/sub/dep.txt.txtpp") || !a.contains("gen/a.txt.txtpp") || big != format!("before\n{payload}after\n") {
+                let what = format!("C17: inputs {:?}: verdict {}, TXTPP_FILE seen by the dependency gen/sub/dep.txt.txtpp = {:?}, by the includer = {:?}; the 40 KB command output arrived {}", inputs, c.imp.verdict, dep.lines().next().unwrap_or(""), a.lines().last().unwrap_or(""), if big == format!("before\n{payload}after\n") { "unchanged" } else { "CHANGED" });
+                rep.violation("oracle", &what, &replay_body(&c.before, &c.cfg, &c.cmds, &format!("# {what}\n")));
+            }
+        }
+    }
     // directory names the display string of a path cannot carry faithfully: invalid UTF-8, blanks, quotes, non-ASCII
     if bin.exists() && args.shard == 0 {
         use std::os::unix::ffi::OsStrExt;
